@@ -281,6 +281,13 @@ void addTransitFault(Gen& g, Item& op, int64_t frames)
             if (fld == FLD_INNER_LEN2)
                 val |= static_cast<int64_t>(r.below(4)) << 16;
             addFault(op, F_SETFIELD, fr, fld, static_cast<int64_t>(r.below(4)), val);
+            if ((fld == FLD_MSG_PLEN || fld == FLD_INNER_LEN || fld == FLD_INNER_LEN2) && r.chance(1, 2))
+            {
+                // relative to what is really left behind the field (resolved on the actual bytes): n-4 .. n+4
+                Item& f = op.sub.back();
+                int64_t delta = r.range(-4, 4);
+                f.set("c", fld == FLD_INNER_LEN2 ? ((delta & 0xFFFF) | (static_cast<int64_t>(r.below(4)) << 16)) : (delta & 0xFFFF)).set("rel", 1);
+            }
             break;
         }
         case 8:
@@ -440,6 +447,14 @@ Plan genHostile(const std::string& prop, int tier, uint64_t batchSeed, uint64_t 
                 for (int64_t v : vals16)
                     if (v >= 0)
                         again(F_SETFIELD, fld, static_cast<int64_t>(r.below(3)), fld == FLD_INNER_LEN2 ? (v | (static_cast<int64_t>(r.below(4)) << 16)) : v);
+            for (int fld : {FLD_MSG_PLEN, FLD_INNER_LEN, FLD_INNER_LEN2})
+                for (int64_t d = -4; d <= 4; ++d)
+                    for (int w = 0; w < (fld == FLD_INNER_LEN2 ? 4 : 1); ++w)
+                    {
+                        again(F_SETFIELD, fld, static_cast<int64_t>(r.below(3)), (d & 0xFFFF) | (static_cast<int64_t>(w) << 16));
+                        Item& op = g.plan.items[g.plan.items.size() - (freshEach ? 2 : 1)];
+                        op.sub.back().set("rel", 1);
+                    }
             for (int fld : {FLD_MSG_PTYPE, FLD_MSG_FLAGS, FLD_VERSION, FLD_MTYPE})
                 for (int64_t v : vals8)
                     again(F_SETFIELD, fld, static_cast<int64_t>(r.below(3)), v);
